@@ -5,6 +5,7 @@ import Driver.StoreDrv
 import Driver.StateDrv
 import Driver.NamesDrv
 import Driver.ConcDrv
+import Driver.ResumeDrv
 open Driver
 
 def runDomain (dom : String) (lines : Array String) : Array String :=
@@ -16,6 +17,7 @@ def runDomain (dom : String) (lines : Array String) : Array String :=
   | "wirecheck" => StateDrv.runWire lines
   | "names" => NamesDrv.runCase lines
   | "conc" => ConcDrv.runCase lines
+  | "resume" => ResumeDrv.runCase lines
   | _ => #["unknown-domain " ++ dom]
 
 def main (args : List String) : IO UInt32 := do
